@@ -100,6 +100,9 @@ def _inlinable(h):
     a = node.args
     if a.vararg or a.kwarg or a.kwonlyargs or a.posonlyargs:
         return False
+    if any(isinstance(d, (ast.List, ast.Dict, ast.Set)) or (isinstance(d, ast.Call) and isinstance(d.func, ast.Name) and d.func.id in ("list", "dict", "set"))
+           for d in a.defaults):
+        return False  # a mutable default is one object shared by all calls: copying the body would hide that
     for n in ast.walk(node):
         if isinstance(n, (ast.Yield, ast.YieldFrom, ast.Global, ast.Nonlocal, ast.Lambda)):
             return False
